@@ -24,6 +24,7 @@ Keys5 == {<<>>, <<1>>, <<2>>, <<3>>, <<1, 0>>}
 Keys6 == {<<>>, <<1>>, <<2>>, <<3>>, <<4>>, <<1, 0>>}
 Keys7 == {<<>>, <<1>>, <<2>>, <<3>>, <<4>>, <<5>>, <<1, 0>>}
 Keys4 == {<<>>, <<1>>, <<2>>, <<1, 0>>}
+Keys9 == {<<>>, <<1>>, <<2>>, <<3>>, <<4>>, <<5>>, <<6>>, <<7>>, <<1, 0>>}
 \* probes: every operation key plus keys in the gaps between them
 ProbeOf(K) == K \cup {<<0>>, <<1, 1>>, <<9>>}
 Probe == ProbeOf(KeySet)
